@@ -125,7 +125,7 @@ func init() {
 		"(*sync.RWMutex).RUnlock":                            stubNop,
 		"(*sync.Once).Do":                                    stubOnceDo,
 		"(*sync.Pool).Get":                                   stubPoolGet,
-		"(*sync.Pool).Put":                                   stubNop,
+		"(*sync.Pool).Put":                                   stubPoolPut,
 		"internal/stringslite.Clone":                         func(fr *frame, a []value) value { return a[0] },
 		"strings.Clone":                                      func(fr *frame, a []value) value { return a[0] },
 		"internal/bytealg.IndexByte":                         extIndexByte,
@@ -589,9 +589,25 @@ func stubOnceDo(fr *frame, a []value) value {
 	return nil
 }
 
+// sync.Pool model: a LIFO per pool (one of the behaviours the real pool may show: Get returns the
+// object most recently Put, or New() when there is none). An object handed out by Get is owned by
+// the caller until it is Put back, so stores into it are not stores to shared memory: its cells are
+// added to the write monitor's allowed set.
 func stubPoolGet(fr *frame, a []value) value {
-	// always call New
-	pool := (*a[0].(*value)).(structure)
+	pc := fr.i.pc
+	key := a[0].(*value)
+	if l := pc.pools[key]; len(l) > 0 {
+		v := l[len(l)-1]
+		pc.pools[key] = l[:len(l)-1]
+		vfAllowWrites(fr, []value{v})
+		if x, ok := v.(iface); ok {
+			if pv, ok := x.v.(*value); ok && pv != nil {
+				vfAllowWrites(fr, []value{*pv})
+			}
+		}
+		return v
+	}
+	pool := (*key).(structure)
 	newFn := pool[len(pool)-1]
 	if f, ok := newFn.(*closure); ok && f != nil {
 		return call(fr.i, fr, token.NoPos, f, nil)
@@ -600,6 +616,16 @@ func stubPoolGet(fr *frame, a []value) value {
 		return call(fr.i, fr, token.NoPos, f, nil)
 	}
 	return iface{}
+}
+
+func stubPoolPut(fr *frame, a []value) value {
+	pc := fr.i.pc
+	if pc.pools == nil {
+		pc.pools = map[*value][]value{}
+	}
+	key := a[0].(*value)
+	pc.pools[key] = append(pc.pools[key], a[1])
+	return nil
 }
 
 func (pc *pathCtx) uniqueName(name string) string {
